@@ -176,6 +176,21 @@ def check(repo: Repo) -> Result:
         raise AnalysisError(f"only {n_sites} Unit constructions with an explicit scale found")
 
     power_offset_rule(repo, res)
+    r9 = res.rule("C05-R9", "Unit.__pow__ rationalises the exponent no more coarsely than sympy's default bound (denominators up to 10**6 are kept): (u**p)**q == u**(p*q) needs p*q itself, not a nearby simpler fraction", floor=1)
+    fnp = uo.func("Unit.__pow__")
+    for c in walk_no_nested(fnp.node):
+        if isinstance(c, ast.Call) and isinstance(c.func, ast.Attribute) and c.func.attr == "limit_denominator":
+            bound = None
+            arg = c.args[0] if c.args else kwarg_of(c, "max_denominator")
+            if arg is None:
+                ok = True
+            else:
+                try:
+                    bound = eval(compile(ast.Expression(arg), "<bound>", "eval"), {"__builtins__": {}}, {})
+                    ok = isinstance(bound, int) and bound >= 10**6
+                except Exception:
+                    raise AnalysisError(f"{fnp.where(c)}: bound of limit_denominator is not a literal")
+            res.check(ok, "__pow__:exponent-bound", fnp.where(c), f"the exponent is snapped to a fraction with denominator <= {bound}: (m**(1/8))**(1/16) becomes m**(1/100) instead of m**(1/128), and Unit('m**0.005') != Unit('m')**0.005", "limit_denominator() with sympy's default bound (10**6) or wider", norm(c), rid=r9)
 
     # R5: the power laws are computed by sympy on the dimension expressions: (x**a)**b collapses to x**(a*b) for
     # fractional b only when x is known to be positive.  Every base dimension must therefore be a positive Symbol
@@ -346,6 +361,8 @@ MUTANTS = [
     Mutant("mul-null-fastpath-left-copy", UO, "Unit.__mul__", "        base_offset = 0.0\n        if self.base_offset or u.base_offset:\n            if u.dimensions", "        if u.expr is sympy_one and u.base_value == 1.0:\n            return self.copy()\n        base_offset = 0.0\n        if self.base_offset or u.base_offset:\n            if u.dimensions", (), benign=True),
     Mutant("div-scale-multiplied", UO, "Unit.__truediv__", "base_value=(self.base_value / u.base_value)", "base_value=(self.base_value * u.base_value)", ("C05-R1",)),
     Mutant("dimension-not-positive", "unyt/dimensions.py", None, 'luminous_intensity = Symbol("(luminous_intensity)", positive=True)', 'luminous_intensity = Symbol("(luminous_intensity)")', ("C05-R5",)),
+    Mutant("pow-coarse-exponent", UO, "Unit.__pow__", "limit_denominator()", "limit_denominator(100)", ("C05-R9",)),
+    Mutant("twin-pow-explicit-default-bound", UO, "Unit.__pow__", "limit_denominator()", "limit_denominator(10**6)", (), benign=True),
     Mutant("pow-drops-offset", UO, "Unit.__pow__", "            base_value=(self.base_value**p),\n            base_offset=base_offset,\n", "            base_value=(self.base_value**p),\n", ("C05-R8", "C05-R1")),
     Mutant("pow-refuses-nothing", UO, "Unit.__pow__", "            if p != 1:\n                raise InvalidUnitOperation(", "            if p == 0:\n                raise InvalidUnitOperation(", ("C05-R8",)),
     Mutant("twin-pow-offset-test-spelled-out", UO, "Unit.__pow__", "        if self.base_offset:\n            if p != 1:", "        if self.base_offset != 0.0:\n            if p != 1:", (), benign=True),
